@@ -33,3 +33,14 @@ VARIANTS += [
       rule='C15-RAWLINES', key='check_strings'),
     M('C15', 'refactor-raw-copies-renamed', [E(CF, "raw_actual", "given_actual", count=None), E(CF, "raw_expected", "given_expected", count=None)], kind='refactor'),
 ]
+
+BCM = 'tdda/referencetest/basecomparison.py'
+RTF = 'tdda/referencetest/referencetest.py'
+VARIANTS += [
+    M('C15', 'configured-dir-dropped-when-missing', E(BCM, "        self.tmp_dir = tmp_dir or tempfile.gettempdir()", "        if not tmp_dir or not os.path.isdir(tmp_dir):\n            tmp_dir = tempfile.gettempdir()\n        self.tmp_dir = tmp_dir"),
+      rule='C15-TMPCFG', key='keeps-argument'),
+    M('C15', 'text-comparison-built-without-tmp_dir', E(RTF, "            verbose=self.verbose,\n            tmp_dir=self.tmp_dir,\n        )", "            verbose=self.verbose,\n        )"),
+      rule='C15-TMPCFG', key='FilesComparison(tmp_dir=)'),
+    M('C15', 'refactor-tmp_dir-conditional-expression', E(BCM, "        self.tmp_dir = tmp_dir or tempfile.gettempdir()", "        self.tmp_dir = tmp_dir if tmp_dir else tempfile.gettempdir()"), kind='refactor'),
+    M('C15', 'refactor-tmp_dir-if-statement', E(BCM, "        self.tmp_dir = tmp_dir or tempfile.gettempdir()", "        if not tmp_dir:\n            tmp_dir = tempfile.gettempdir()\n        self.tmp_dir = tmp_dir"), kind='refactor'),
+]
